@@ -299,6 +299,16 @@ Fixpoint no_sync_in (l : list N) : bool :=
               && no_sync_in t
   end.
 
+(* position of the first sync word by the naive position-by-position scan (specification of
+   "the offset at which the sync word was found") *)
+Fixpoint first_sync (l : list N) : option nat :=
+  match l with
+  | [] => None
+  | b :: t =>
+      if (b =? 255) && match t with x :: _ => is_sync2 x | [] => false end then Some O
+      else option_map S (first_sync t)
+  end.
+
 Definition adts_roundtrip_ok (junk : list N) (h : adts) (rest : list N) : bool :=
   match decode_adts (junk ++ encode_adts h ++ rest) with
   | Ok (h', off) => adts_eqb h h' && (off =? Z.of_nat (length junk))%Z
